@@ -577,6 +577,9 @@ pub fn main(args: &Args) -> i32 {
 
 fn replay(path: &str) -> i32 {
     let v = vcommon::load_replay(path);
+    if v["replay"]["kind"].as_str() == Some("Guid") {
+        vcommon::machinery_failure("C10 replay: GUID cases are replayed by the zb crate (engines/zb/src/c10guid.rs, `c10guid::replay`)");
+    }
     let kind = v["replay"]["kind"].as_str().and_then(Kind::from_name);
     let s = v["replay"]["string"].as_str();
     let (Some(kind), Some(s)) = (kind, s) else {
